@@ -261,6 +261,29 @@ theorem C04_sortBy_spec {less : Int → Int → Bool} (h : C19.StrictWeak less) 
 
 theorem C04_comparators_strictWeak (k : Nat) : C19.StrictWeak (Spec.lessFn k) := lessFn_strictWeak k
 
+/-- `MapKey(f)`: when the transformed keys are pairwise distinct — in particular for the (injective) key functions
+    of the harness family on a map with distinct keys — every entry keeps its value under the transformed key.
+    (With colliding keys the Go result depends on the map iteration order; no definition prescribes it.) -/
+theorem C04_mapKey_law {β : Type} (m : List (Int × β)) :
+    (∀ f : Int → Int, (m.map (fun kv => f kv.1)).Nodup → Spec.mapKeys f m = m.map (fun kv => (f kv.1, kv.2))) ∧
+    (∀ k, (m.map (·.1)).Nodup → Spec.mapKeys (Spec.keyFn k) m = m.map (fun kv => (Spec.keyFn k kv.1, kv.2))) := by
+  refine ⟨fun f h => Spec.mapKeys_of_nodup f m h, fun k h => Spec.mapKeys_of_nodup _ m ?_⟩
+  have : m.map (fun kv => Spec.keyFn k kv.1) = (m.map (·.1)).map (Spec.keyFn k) := by simp
+  rw [this]
+  simp only [List.Nodup, List.pairwise_map] at h ⊢
+  exact h.imp (fun hne e => hne (Spec.keyFn_injective k e))
+
+example : ([(1, 5), (2, 0)] : List (Int × Int)).map (·.1) |>.Nodup := by decide
+
+/-- `Keys()` / `Values()` return a NEW array (index = old heap size, so no existing collection can see a write
+    through it) holding the keys / values -/
+theorem C04_keys_values_detached (w : World) (p : Nat) :
+    ((w.setKeys p).2.arr = w.arrs.length ∧
+      (w.setKeys p).1.sliceContent (w.setKeys p).2 = Spec.sortInts ((w.setMap p).map (·.1))) ∧
+    ((w.setValues p).2.arr = w.arrs.length ∧
+      (w.setValues p).1.sliceContent (w.setValues p).2 = Spec.sortInts ((w.setMap p).map (fun kv => valInt kv.2))) :=
+  ⟨⟨rfl, sliceContent_allocArr_new _ _⟩, ⟨rfl, sliceContent_allocArr_new _ _⟩⟩
+
 /-! ### StreamSet operations: from maps of stream pointers to maps of element sequences -/
 
 /-- the printed/compared contents of a set-like handle are its entries — every stream pointer replaced by the
